@@ -3,7 +3,7 @@ import os, subprocess, struct
 
 VERIF = os.path.dirname(os.path.dirname(os.path.abspath(__file__)))
 LEAN = os.path.join(VERIF, "lean")
-EXE = os.path.join(LEAN, ".lake", "build", "bin", "jfdriver")
+BIN = os.path.join(LEAN, ".lake", "build", "bin")
 
 
 def f2b(x: float) -> str:
@@ -17,8 +17,8 @@ def b2f(s) -> float:
 def model(component: str, lines):
     """lines: iterable of str (no newline) -> list of reply lines"""
     lines = list(lines)
-    data = component + "\n" + "".join(l + "\n" for l in lines)
-    p = subprocess.run([EXE], input=data, capture_output=True, text=True)
+    data = "".join(l + "\n" for l in lines)
+    p = subprocess.run([os.path.join(BIN, "jf_" + component)], input=data, capture_output=True, text=True)
     if p.returncode != 0:
         raise RuntimeError(f"model driver failed rc={p.returncode}: {p.stderr[-2000:]}")
     out = p.stdout.split("\n")
